@@ -120,6 +120,8 @@ class C15(Check):
             us.append(grid_unit(2, 2, 2, 2, "list"))
             us.append(grid_unit(2, 2, 3, 2, "array"))
             us.append(grid_unit(1, 1, 2, 3, "tuple"))
+            us.append(grid_unit(2, 2, 0, 2, "list"))      # no event fires at all (started in an absorbing state)
+            us.append(grid_unit(2, 1, 1, 2, "array"))
         else:
             for form in ("list", "tuple", "array"):
                 us.append(grid_unit(2, 2, 3, 3, form))
@@ -127,6 +129,10 @@ class C15(Check):
             us.append(grid_unit(3, 3, 3, 2, "array"))
             us.append(grid_unit(1, 1, 3, 3, "list"))
             us.append(grid_unit(2, 1, 3, 3, "list"))
+            for S, E in ((1, 1), (2, 2), (3, 2)):
+                us.append(grid_unit(S, E, 0, 2, "list"))
+                us.append(grid_unit(S, E, 0, 3, "array"))
+                us.append(grid_unit(S, E, 1, 2, "tuple"))
         return us
 
 
